@@ -39,7 +39,7 @@ def meta_fs(fixture_key):
 
 
 def make_meta_text(fixture_key, nap, ns, shank_of=None, size_fields="complete",
-                   claimed_ns=None, fs=None, ap_gains=None):
+                   claimed_ns=None, fs=None, ap_gains=None, time_decimals=None):
     """
     :param nap: number of AP channels (one sync channel is appended)
     :param ns: number of frames the metadata describes (when size_fields != 'none')
@@ -76,7 +76,7 @@ def make_meta_text(fixture_key, nap, ns, shank_of=None, size_fields="complete",
         elif kk == "fileTimeSecs":
             if size_fields in ("none", "size_only"):
                 continue
-            v = _fmt_float(cns / fs_eff)
+            v = _fmt_float(cns / fs_eff) if time_decimals is None else f"{cns / fs_eff:.{int(time_decimals)}f}"
         elif kk == "imSampRate" and fs is not None:
             v = repr(fs) if fs != int(fs) else str(int(fs))
         elif kk == "imroTbl" and ap_gains is not None:
@@ -96,7 +96,7 @@ def make_meta_text(fixture_key, nap, ns, shank_of=None, size_fields="complete",
         if "fileSizeBytes" not in seen and size_fields != "time_only":
             out.append(f"fileSizeBytes={cns * nc * 2}")
         if "fileTimeSecs" not in seen and size_fields != "size_only":
-            out.append(f"fileTimeSecs={_fmt_float(cns / fs_eff)}")
+            out.append("fileTimeSecs=" + (_fmt_float(cns / fs_eff) if time_decimals is None else f"{cns / fs_eff:.{int(time_decimals)}f}"))
     return "\n".join(out) + "\n"
 
 
@@ -145,7 +145,7 @@ def make_data(data_seed, ns, nap, saturate=None, amp=600, maxint=8192, smooth=Fa
 
 
 def write_recording(folder, stem, fixture_key, data, shank_of=None, size_fields="complete",
-                    claimed_ns=None, fs=None, ap_gains=None):
+                    claimed_ns=None, fs=None, ap_gains=None, time_decimals=None):
     """Writes <stem>.ap.bin and <stem>.ap.meta into folder; returns bin path."""
     folder = Path(folder)
     folder.mkdir(parents=True, exist_ok=True)
@@ -154,7 +154,7 @@ def write_recording(folder, stem, fixture_key, data, shank_of=None, size_fields=
     data.tofile(bin_file)
     (folder / f"{stem}.ap.meta").write_text(
         make_meta_text(fixture_key, nc - 1, ns, shank_of=shank_of, size_fields=size_fields,
-                       claimed_ns=claimed_ns, fs=fs, ap_gains=ap_gains)
+                       claimed_ns=claimed_ns, fs=fs, ap_gains=ap_gains, time_decimals=time_decimals)
     )
     return bin_file
 
